@@ -79,9 +79,9 @@ func wkvCheckPlan(t *testing.T, kind string, table *HashSlotTable, plan []Migrat
 }
 
 func TestWkvBoundedPlans(t *testing.T) {
-	maxH, maxS := 6, 3
+	maxH, maxS := 6, 4
 	if os.Getenv("VERIF_TIER") == "thorough" || os.Getenv("WKV_TIER") == "thorough" {
-		maxH, maxS = 9, 4
+		maxH, maxS = 8, 5
 	}
 	cases := 0
 	for S := 1; S <= maxS; S++ {
@@ -108,13 +108,20 @@ func TestWkvBoundedPlans(t *testing.T) {
 				// to the new slot / away from the removed one); unbalanced inputs are checked for the
 				// structural clauses only (moved once, away from the owner).
 				balanced := wkvBalanced(table, active)
-				newSlot := multiraft.SlotID(S + 1)
-				addParts := append(append([]multiraft.SlotID(nil), active...), newSlot)
-				if !balanced {
-					addParts = nil
-				}
-				if !wkvCheckPlan(t, "add", table, ComputeAddSlotPlan(table, newSlot), addParts, 1) {
-					return
+				// add every slot id in 1..S+1 that owns nothing yet (a fresh highest id, or an id
+				// lower than existing ones, e.g. a slot that was removed earlier)
+				for ns := 1; ns <= S+1; ns++ {
+					newSlot := multiraft.SlotID(ns)
+					if used[newSlot] {
+						continue
+					}
+					addParts := append(append([]multiraft.SlotID(nil), active...), newSlot)
+					if !balanced {
+						addParts = nil
+					}
+					if !wkvCheckPlan(t, "add", table, ComputeAddSlotPlan(table, newSlot), addParts, 1) {
+						return
+					}
 				}
 				for _, rm := range active {
 					var rest []multiraft.SlotID
@@ -150,6 +157,65 @@ func TestWkvBoundedPlans(t *testing.T) {
 				}
 				if i == H {
 					break
+				}
+			}
+		}
+	}
+	// Phase 2: larger BALANCED tables (where a plan that stops early misses the ideal share by
+	// more than one): every non-empty subset of slot ids 1..6 as the active set, H up to 48,
+	// the remainder of the even share given to the first or to the last slots.
+	maxH2 := 48
+	for mask := 1; mask < 64; mask++ {
+		var active []multiraft.SlotID
+		for b := 0; b < 6; b++ {
+			if mask&(1<<b) != 0 {
+				active = append(active, multiraft.SlotID(b+1))
+			}
+		}
+		for H := len(active); H <= maxH2; H++ {
+			for variant := 0; variant < 2; variant++ {
+				table := NewHashSlotTable(uint16(H), 1)
+				base, rem := H/len(active), H%len(active)
+				h := 0
+				for i, sl := range active {
+					n := base
+					if (variant == 0 && i < rem) || (variant == 1 && i >= len(active)-rem) {
+						n++
+					}
+					for k := 0; k < n; k++ {
+						table.assignment[h] = sl
+						h++
+					}
+				}
+				cases++
+				used := map[multiraft.SlotID]bool{}
+				for _, sl := range active {
+					used[sl] = true
+				}
+				for ns := 1; ns <= 7; ns++ {
+					if used[multiraft.SlotID(ns)] {
+						continue
+					}
+					parts := append(append([]multiraft.SlotID(nil), active...), multiraft.SlotID(ns))
+					if !wkvCheckPlan(t, "add(balanced)", table, ComputeAddSlotPlan(table, multiraft.SlotID(ns)), parts, 1) {
+						return
+					}
+				}
+				if len(active) > 1 {
+					for _, rm := range active {
+						var rest []multiraft.SlotID
+						for _, sl := range active {
+							if sl != rm {
+								rest = append(rest, sl)
+							}
+						}
+						if !wkvCheckPlan(t, "remove(balanced)", table, ComputeRemoveSlotPlan(table, rm), rest, 1) {
+							return
+						}
+					}
+				}
+				if !wkvCheckPlan(t, "rebalance(balanced)", table, ComputeRebalancePlan(table), active, 0) {
+					return
 				}
 			}
 		}
